@@ -79,7 +79,7 @@ func (p *C12) Gen(seed uint64, i int, tier string) *scen.Scenario {
 	sc.World.Flags = c.flags
 	sc.World.FileDir = "auto"
 	sc.World.Clock = scen.Clock{TickNs: 1, MinStep: 40, MaxStep: 4000}
-	sc.Note = fmt.Sprintf("cell entry=%s sev=%d flags=%v mode=%s admits=%v format=%s", c.entry, c.sev, c.flags, c.mode, c.admits, c.format)
+	sc.Note = fmt.Sprintf("cell entry=%s sev=%d flags=%v mode=%s admits=%v format=%s faulty=%v", c.entry, c.sev, c.flags, c.mode, c.admits, c.format, c.variant%3 == 1)
 	l := 1
 	isPkg := strings.HasPrefix(c.entry, "pkg.")
 	var level int
@@ -101,16 +101,32 @@ func (p *C12) Gen(seed uint64, i int, tier string) *scen.Scenario {
 	case "logfmt":
 		fopts = append(fopts, scen.Op{Kind: "color", B: []bool{false}})
 	}
+	// crash point x fault: in a third of the variants the error device has a permanently failing member in
+	// front of the durable one; the durable one must still hold the record when the process dies
+	faulty := c.variant%3 == 1
+	var pre []scen.Op
+	if faulty {
+		for k := 0; k < 64; k++ {
+			sc.Faults = append(sc.Faults, scen.Fault{W: 3, Attempt: k, Kind: scen.Pick(r, []string{"err", "err", "partial"}), N: 5})
+		}
+		pre = []scen.Op{{Kind: "errwriter", W: 3, WK: "plain"}, {Kind: "add_errwriter", W: 1, WK: "file"}}
+	} else {
+		pre = []scen.Op{{Kind: "errwriter", W: 1, WK: "file"}}
+	}
 	if isPkg {
 		l = 0
-		sc.Setup = append(sc.Setup, scen.Op{Op: "set", L: 0, Kind: "errwriter", W: 1, WK: "file"}, scen.Op{Op: "set", L: 0, Kind: "writer", W: 2, WK: "plain"},
+		for _, o := range pre {
+			o.Op, o.L = "set", 0
+			sc.Setup = append(sc.Setup, o)
+		}
+		sc.Setup = append(sc.Setup, scen.Op{Op: "set", L: 0, Kind: "writer", W: 2, WK: "plain"},
 			scen.Op{Op: "pkg_set_level", Lvl: level})
 		for _, o := range fopts {
 			o.Op, o.L = "set", 0
 			sc.Setup = append(sc.Setup, o)
 		}
 	} else {
-		op := scen.Op{Op: "new_root", R: 1, Name: "t", Named: true, Opts: append([]scen.Op{{Kind: "errwriter", W: 1, WK: "file"}, {Kind: "writer", W: 2, WK: "plain"}, {Kind: "level", Lvl: level}}, fopts...)}
+		op := scen.Op{Op: "new_root", R: 1, Name: "t", Named: true, Opts: append(append(append([]scen.Op{}, pre...), scen.Op{Kind: "writer", W: 2, WK: "plain"}, scen.Op{Kind: "level", Lvl: level}), fopts...)}
 		sc.Setup = append(sc.Setup, op)
 	}
 	sc.Setup = append(sc.Setup, scen.Op{Op: "set_debug_mode", B: []bool{false}})
@@ -313,6 +329,7 @@ func (p *C12) Check(sc *scen.Scenario, run *orch.Run, env *orch.Env) []orch.Viol
 			}
 			// nothing after the record
 			last := run.Events[len(run.Events)-1]
+			// (with a failing member in the device the last write may be the diagnostic about it)
 			if !(last.K == "write" && last.Op == cellIdx+1) {
 				add("C12.after-record", where, "%s: the last event before the exit is %s (op %d), expected the record's write", ctx, last.K, last.Op)
 			}
